@@ -42,16 +42,35 @@ def _coll(keys, how):
     return _keys_as(list(keys), how)
 
 
+def spelled(addr, how):
+    """an equivalent spelling of a server for the configuration: 'host:port', '[host]:port', the host alone when the port is the
+    default one, the port as text, 'unix:' in front of a socket path"""
+    if isinstance(addr, str):
+        return "unix:" + addr if how % 2 else addr
+    h, p = addr
+    how %= 5
+    if how == 1:
+        return "%s:%d" % (h, p)
+    if how == 2:
+        return "[%s]:%d" % (h, p) if ":" in h else "%s:%d" % (h, p)
+    if how == 3:
+        return ("[%s]" % h if ":" in h else h) if p == 11211 else "%s:%d" % (h, p)
+    if how == 4:
+        return (h, str(p))
+    return (h, p)
+
+
 def check(case):
     addrs = [a if isinstance(a, str) else tuple(a) for a in case["addrs"]]
+    config = [spelled(a, case["spell"][i % len(case["spell"])]) for i, a in enumerate(addrs)] if case.get("spell") else addrs
     prefix = case.get("prefix", b"")
     env = Env(addrs=addrs)
     names = [node_name(a) for a in addrs]
     srv_of = {n: s for n, s in zip(names, env.servers)}
     with virtual_time(env.clock):
-        hc = HashClient(addrs, socket_module=env.net, key_prefix=prefix, use_pooling=case.get("pooling", False), default_noreply=False)
+        hc = HashClient(config, socket_module=env.net, key_prefix=prefix, use_pooling=case.get("pooling", False), default_noreply=False)
         keys = list(case["keys"])          # entries: key | (server_key, key)
-        desc = "servers %r pooling=%r prefix=%r" % (names, case.get("pooling", False), prefix)
+        desc = "servers %r%s pooling=%r prefix=%r" % (names, " configured as %r" % (config,) if case.get("spell") else "", case.get("pooling", False), prefix)
 
         def inner(k):
             return k[1] if isinstance(k, tuple) else k
@@ -279,7 +298,7 @@ def _brief(x):
     return s if len(s) < 300 else s[:200] + "...(%d chars)" % len(s)
 
 
-SERVER_POOL = [["h%d" % i, 11211 + j] for i in range(4) for j in range(2)] + [["10.0.0.%d" % i, 11211] for i in (1, 11)] + ["/tmp/mc-a.sock", "/tmp/mc-b.sock", "/var/run/mc"]
+SERVER_POOL = [["h%d" % i, 11211 + j] for i in range(4) for j in range(2)] + [["10.0.0.%d" % i, 11211] for i in (1, 11)] + [["fe80::%d" % i, 11211] for i in (1, 2)] + ["/tmp/mc-a.sock", "/tmp/mc-b.sock", "/var/run/mc"]
 
 
 def case_strategy(tier):
@@ -304,7 +323,7 @@ def case_strategy(tier):
     dups = st.lists(st.tuples(st.sampled_from(["dup\x7fkey", "d\x7f2", "\x7fx"]), st.lists(st.sampled_from(["tenant-a", "tenant-b", "sk3", "sk4", "zz"]), min_size=2, max_size=4, unique=True)).map(list),
                     max_size=2)
     return st.fixed_dictionaries({"addrs": servers, "pooling": st.booleans(), "prefix": st.sampled_from([b"", b"", b"p:", b"\xffns/"]),
-                                  "keys": keys2, "script": script, "dups": dups,
+                                  "keys": keys2, "script": script, "dups": dups, "spell": st.one_of(st.none(), st.lists(st.integers(0, 4), min_size=1, max_size=5)),
                                   "coll": st.sampled_from(["list", "list", "tuple", "iter", "generator", "map", "dictview"])})
 
 
@@ -318,7 +337,8 @@ def grid_cases(tier, seed):
             yield {"addrs": SERVER_POOL[:n - 1] + [SERVER_POOL[-1]], "pooling": pooling, "prefix": b"g:" if n % 2 else b"",
                    "keys": keys, "script": [{"i": i, "op": op} for i, op in enumerate(
                        ["incr", "touch", "gat", "append", "cas", "delete", "add", "decr", "gats", "prepend", "replace", "get"])],
-                   "dups": [["dup\x7fkey", ["tenant-a", "tenant-b", "sk3", "sk4"]], ["d\x7f2", ["a", "b", "c", "d", "e"]]], "coll": coll}
+                   "dups": [["dup\x7fkey", ["tenant-a", "tenant-b", "sk3", "sk4"]], ["d\x7f2", ["a", "b", "c", "d", "e"]]], "coll": coll,
+                   "spell": None if coll == "list" else [n + pooling, 3, 1, 4, 2]}
 
 
 PARTS = [
